@@ -299,7 +299,7 @@ class Emit:
 
   def __init__(self, cached, nleafvars=None):
     self.cached, self.nleafvars = cached, nleafvars
-    self.leaves, self.flags, self.idx, self.attr = 0, [], 0, 0
+    self.leaves, self.flags, self.idx, self.attr, self.items = 0, [], 0, 0, 0
     self.conflict = None   # the flag that shares a node with `lz`
     self.handle = False
 
@@ -329,6 +329,9 @@ class Emit:
       if lz != 'False': self.conflict = c
       x = f"('{'pair' if p == 'item' else 'obj'}', ({c}, {lz}), {self.node(kids[0])}, {self.node(kids[1])})"
       if p == 'item':
+        self.items += 1
+        if self.items > 1:            # only the first index is symbolic, later ones alternate 1, 0
+          return f"('item', {x}, ('L', {self.items % 2}))"
         self.idx += 1
         return f"('item', {x}, ('L', i{self.idx - 1}))"
       self.attr += 1
@@ -436,13 +439,13 @@ def gen(p):
       return not (type(r) is lazy_fns.LazyObject and lazy_fns.maybe_make(r) == 7 and x1 == 3 and sorted(_LOG) == ['add', 'cnt', 'mul'])"""))
   # ============================================================ expressions: cache / lazy flags symbolic ========
   lo2, hi2 = p['flag_range']
-  for (flo, fhi), ftrees in p['flag_sets']:
+  for (flo, fhi, nlv), ftrees in p['flag_sets']:
     for t in ftrees:
-      em = Emit(cached=True, nleafvars=p['flag_leafvars'])
+      em = Emit(cached=True, nleafvars=nlv)
       src = em.node(t, lz='lz')
-      params, pre = _params(min(em.leaves, p['flag_leafvars']), em.idx, em.flags, True, flo, fhi)
+      params, pre = _params(min(em.leaves, nlv), em.idx, em.flags, True, flo, fhi)
       pres = [pre, f'not ({em.conflict} and lz)']
-      A(F(f'ob_flags_{name(t)}_r{fhi - flo + 1}', params, pres, f"""
+      A(F(f'ob_flags_{name(t)}_r{fhi - flo + 1}v{nlv}', params, pres, f"""
       tree = {src}
       return _hist([tree], [{'lz' if em.handle else 'False'}], [0, 0, 1, 0])"""))
   for t in p['pickle_trees']:
@@ -604,7 +607,7 @@ def _nodes(t):
 def params(tier):
   size1, size2, size3 = trees(1), trees(2), trees(3)
   if tier == 'quick':
-    sel3 = [t for j, t in enumerate(size3) if j % 41 == 0]
+    sel3 = [t for j, t in enumerate(size3) if j % 29 == 0]
     return dict(
         lru_maxsize=3, lru_key_kinds=['obj', 'int'], lru_int_keys=3, lru_int_n=1,
         lru_hists=['SSCSG', 'SGSSG', 'SCSSS', 'ISNCI'], lru_hist_maxsize=3,
@@ -612,27 +615,28 @@ def params(tier):
         sym_trees=size1 + size2 + sel3 + [_t(x) for x in ['okw(cnt(x),cnt(x))', 'add(cnt(x),cnt(x))', 'meth(cnt(x),cnt(x),cnt(x))']],
         flag_range=(0, 1), flag_leafvars=3,
         # '~' = that call is never cached, '!' = always cached, otherwise its cache_result_ flag is symbolic
-        flag_sets=[((0, 1), [_t(x) for x in ['okw(cnt(x),cnt(x))', 'add(mul~(x,x),cnt(x))', 'item(cnt(x),x)', 'attr(x,add(x,x))',
+        flag_sets=[((0, 1, 3), [_t(x) for x in ['okw(cnt(x),cnt(x))', 'add(mul~(x,x),cnt(x))', 'item(cnt(x),x)', 'attr(x,add(x,x))',
                                     'meth(x,x,cnt~(x))', 'pair(add~(x,x),cnt(x))', 'obj(x,okw(x,x))', 'add(cnt(x),cnt(x))',
-                                    'okw(x,add~(cnt(x),cnt~(x)))']])],
+                                    'okw(x,add~(cnt(x),cnt~(x)))', 'meth(cnt~(x),x,x)', 'item(x,okw~(x,x))',
+                                    'okw(cnt(x),add~(cnt(x),x))', 'pair(cnt(cnt~(x)),x)']])],
         pickle_trees=[_t(x) for x in ['okw(cnt(x),cnt(x))', 'meth(x,mul(x,x),x)', 'item(x,add(x,x))', 'pair(cnt(x),attr(x,x))', 'add(okw(x,cnt(x)),x)', 'obj(cnt(x),meth~(x,x,x))']],
         hists={'cnt_cnt': (_t('cnt(x)'), _t('cnt!(0)'), 3), 'pair_add': (_t('pair~(x,cnt(0))'), _t('add!(cnt!(0),x)'), 3)},
         fn_prefill=[0, 128], fn_slack=2, timeout=150)
   return dict(
-      lru_maxsize=4, lru_key_kinds=['obj', 'int'], lru_int_keys=4, lru_int_n=3,
+      lru_maxsize=4, lru_key_kinds=['obj', 'int'], lru_int_keys=4, lru_int_n=2,
       lru_hists=['SSCSG', 'SGSSG', 'SCSSS', 'ISNCI', 'SSSGS', 'SSGSG', 'SSCSS', 'SCSCS', 'GSGSG', 'SSSCG', 'SNSGS', 'SSSSG',
                  'SSSSSG', 'SSCSSG', 'SGSGSS'],
       lru_hist_maxsize=4,
       sym_range=(-1000, 1000), sym_trees=size1 + size2 + size3, sym_group=40,
       flag_range=(0, 2), flag_leafvars=3,
-      flag_sets=[((0, 1), size2 + [_t(x) for x in ['add(okw(x,mul~(x,x)),x)', 'meth~(cnt(x),x,item(x,x))', 'okw(cnt(x),add~(cnt(x),x))',
+      flag_sets=[((0, 1, 2), size2 + [_t(x) for x in ['add(okw(x,mul~(x,x)),x)', 'meth~(cnt(x),x,item(x,x))', 'okw(cnt(x),add~(cnt(x),x))',
                                                    'pair(cnt(cnt(x)),cnt~(x))', 'okw(x,add(cnt(x),cnt(x)))', 'add(cnt(x),cnt(x))',
                                                    'okw(x,add~(cnt(x),cnt~(x)))', 'item(cnt(x),okw(x,x))', 'meth(x,cnt(x),cnt(x))']]),
-                 ((0, 2), size1 + [_t(x) for x in ['okw(cnt(x),cnt(x))', 'add(mul~(x,x),cnt(x))', 'pair(add~(x,x),cnt(x))', 'item(cnt(x),x)',
+                 ((0, 2, 3), size1 + [_t(x) for x in ['okw(cnt(x),cnt(x))', 'add(mul~(x,x),cnt(x))', 'pair(add~(x,x),cnt(x))', 'item(cnt(x),x)',
                                                    'attr(x,add(x,x))', 'meth(x,x,cnt~(x))']])],
       pickle_trees=size1 + size2 + [t for j, t in enumerate(size3) if j % 41 == 0],
       hists={'cnt_cnt': (_t('cnt(x)'), _t('cnt(0)'), 4), 'pair_add': (_t('pair~(x,cnt(0))'), _t('add!(cnt(0),1)'), 4),
-             'okw_okw': (_t('okw(cnt~(x),0)'), _t('okw!(0,cnt~(x))'), 4), 'item_meth': (_t('item(x,cnt~(0))'), _t('meth!(x,1,cnt~(0))'), 4),
+             'okw_okw': (_t('okw(cnt~(x),0)'), _t('okw!(0,cnt~(x))'), 4), 'item_meth': (_t('item(x,cnt~(0))'), _t('meth!(x,1,cnt~(0))'), 3),
              'cntC_cntC_5ops': (_t('cnt!(x)'), _t('cnt!(0)'), 5)},
       fn_prefill=[0, 1, 100, 127, 128, 129], fn_slack=3, timeout=1200)
 
@@ -662,9 +666,9 @@ def run(tier):
     ns = [name(t) for t in ts]
     return ns if len(ns) <= 24 else f'{len(ns)} skeletons: ' + ' '.join(ns[:12]) + ' ... ' + ' '.join(ns[-4:])
   shown = {k: (names(v) if k.endswith('_trees') else v) for k, v in p.items() if k not in ('hists', 'flag_sets')}
-  shown['flag_sets'] = [{'leaf_range': r, 'skeletons': names(ts)} for r, ts in p['flag_sets']]
+  shown['flag_sets'] = [{'leaf_range': r[:2], 'distinct_leaf_vars': r[2], 'skeletons': names(ts)} for r, ts in p['flag_sets']]
   shown['sym_trees'] = f'{len(p["sym_trees"])} skeletons: all with <= 2 productions' + (
-      ' and all with 3 productions' if tier != 'quick' else ' and every 41st of the 2254 3-production skeletons + 3 with the stateful callee in several argument positions')
+      ' and all with 3 productions' if tier != 'quick' else ' and every 29th of the 2254 3-production skeletons + 3 with the stateful callee in several argument positions')
   shown['hists'] = {k: (name(a), name(b), n) for k, (a, b, n) in p['hists'].items()}
   rep.bounds(**shown, per_condition_timeout_s=timeout,
              note='lru_step: n = 0..lru_maxsize distinct symbolic keys (kind obj: Key objects over ints in -1000..1000 with value equality and a '
